@@ -312,3 +312,170 @@ fn w_compress_to_vec() {
     kani::cover!(unsafe { K_CALLS } > 2);
     core::mem::forget(v);
 }
+
+// ------------------------------------------------------------------------------------------
+// C02/C14/C12: prologue (pending-output drain, Finish stickiness) and epilogue (final flush,
+// Full-flush history cut) of the real compress_inner, from a compressor whose scalar state is
+// arbitrary. Back ends and flush_block are marker stubs.
+
+/// Whole-slice model of `<[T]>::fill` for the compressor's 32 K-element arrays (the real
+/// per-element loop cannot be unrolled). Other lengths are outside this model.
+pub fn fill_model<T: Clone>(s: &mut [T], value: T) {
+    let n = s.len();
+    if core::mem::size_of::<T>() == 2 && n == 32768 {
+        let v: u16 = unsafe { core::mem::transmute_copy(&value) };
+        let p = s.as_mut_ptr() as *mut [u16; 32768];
+        unsafe { *p = [v; 32768] };
+    } else if core::mem::size_of::<T>() == 1 && n == 33026 {
+        let v: u8 = unsafe { core::mem::transmute_copy(&value) };
+        let p = s.as_mut_ptr() as *mut [u8; 33026];
+        unsafe { *p = [v; 33026] };
+    } else {
+        kani::assume(false);
+    }
+}
+
+fn any_flush() -> TDEFLFlush {
+    let f: u8 = kani::any();
+    match f % 8 {
+        0 => TDEFLFlush::None,
+        1 => TDEFLFlush::Partial,
+        2 => TDEFLFlush::Sync,
+        3 => TDEFLFlush::Full,
+        4 => TDEFLFlush::Finish,
+        5 => TDEFLFlush::PartialOpt,
+        6 => TDEFLFlush::SyncOpt,
+        _ => TDEFLFlush::NoSync,
+    }
+}
+
+/// Pending output is delivered before anything else happens; the remembered status is the returned one;
+/// Finish is sticky; a previous error refuses everything.
+fn drain(rem: u32, n_out: usize) {
+    let lvl: u8 = kani::any();
+    kani::assume(lvl <= 2);
+    let mut c = CompressorOxide::new(dcore::create_comp_flags_from_zip_params(lvl as i32, 1, 0));
+    let mut s = c.verif_scalars();
+    // pending byte count and output size are concrete per family member, everything else symbolic
+    let ofs: u32 = 7;
+    s.flush_remaining = rem;
+    s.flush_ofs = ofs;
+    s.finished = kani::any();
+    s.flush = any_flush();
+    let prev: u8 = kani::any();
+    s.prev_return_status = match prev % 4 {
+        0 => TDEFLStatus::Okay,
+        1 => TDEFLStatus::Done,
+        2 => TDEFLStatus::BadParam,
+        _ => TDEFLStatus::PutBufFailed,
+    };
+    s.saved_lit = 0;
+    // after Finish was accepted, "finished" or pending output is what remains of the stream
+    let prev_flush = s.flush;
+    let finished = s.finished;
+    c.verif_set_scalars(&s);
+    let v: [u8; 3] = kani::any();
+    c.verif_set_local_buf(ofs as usize, v[0]);
+    c.verif_set_local_buf(ofs as usize + 1, v[1]);
+    c.verif_set_local_buf(ofs as usize + 2, v[2]);
+    let input: [u8; 2] = kani::any();
+    let n_in: usize = kani::any();
+    kani::assume(n_in <= 2);
+    let mut out = [0u8; 4];
+    let flush = any_flush();
+    let pending = rem != 0 || finished;
+    kani::assume(pending || s.prev_return_status != TDEFLStatus::Okay || (prev_flush == TDEFLFlush::Finish && flush != TDEFLFlush::Finish));
+    let r = compress(&mut c, &input[..n_in], &mut out[..n_out], flush);
+    let a = c.verif_scalars();
+    // the remembered status is always the returned one
+    assert!(c.prev_return_status() == r.0);
+    if s.prev_return_status != TDEFLStatus::Okay || (prev_flush == TDEFLFlush::Finish && flush != TDEFLFlush::Finish) {
+        assert!(r.0 == TDEFLStatus::BadParam && r.1 == 0 && r.2 == 0);
+        assert!(a.flush_remaining == rem && a.flush_ofs == ofs);
+        assert!(c.verif_route_mark() == 0);
+    } else {
+        // pending output first: no back end, no input consumed, exactly min(space, pending) bytes copied
+        assert!(c.verif_route_mark() == 0);
+        let n = if (rem as usize) < n_out { rem as usize } else { n_out };
+        assert!(r.1 == 0 && r.2 == n);
+        let mut i = 0;
+        while i < n {
+            assert!(out[i] == v[i]);
+            i += 1;
+        }
+        assert!(a.flush_remaining == rem - n as u32 && a.flush_ofs == ofs + n as u32);
+        assert!((r.0 == TDEFLStatus::Done) == (finished && rem as usize == n));
+        assert!(r.0 == TDEFLStatus::Done || r.0 == TDEFLStatus::Okay);
+    }
+    kani::cover!(r.0 == TDEFLStatus::Done || (rem as usize) > n_out);
+    kani::cover!(r.0 == TDEFLStatus::Okay || rem == 0);
+    kani::cover!(r.0 == TDEFLStatus::BadParam);
+    core::mem::forget(c);
+}
+
+
+macro_rules! drain_harness {
+    ($name:ident, $rem:expr, $n_out:expr) => {
+        #[kani::proof]
+        #[kani::unwind(6)]
+        #[kani::stub(dcore::compress_fast, dcore::verif::mark_compress_fast)]
+        #[kani::stub(dcore::compress_normal, dcore::verif::mark_compress_normal)]
+        #[kani::stub(dcore::compress_stored, dcore::verif::mark_compress_stored)]
+        #[kani::stub(dcore::flush_block, dcore::verif::mark_flush_block)]
+        fn $name() {
+            drain($rem, $n_out)
+        }
+    };
+}
+drain_harness!(w_compress_drain_r2_o1, 2, 1);
+drain_harness!(w_compress_drain_r2_o4, 2, 4);
+drain_harness!(w_compress_drain_r0_o4, 0, 4);
+drain_harness!(w_compress_drain_r3_o3, 3, 3);
+
+/// Epilogue: with nothing pending and the look-ahead empty, a flush request runs the final
+/// flush_block exactly once; Finish marks the stream finished; Full cuts the history
+/// (dictionary size 0, hash chains cleared); other modes keep it.
+#[kani::proof]
+#[kani::unwind(6)]
+#[kani::stub(dcore::compress_fast, dcore::verif::mark_compress_fast)]
+#[kani::stub(dcore::compress_normal, dcore::verif::mark_compress_normal)]
+#[kani::stub(dcore::compress_stored, dcore::verif::mark_compress_stored)]
+#[kani::stub(dcore::flush_block, dcore::verif::mark_flush_block)]
+#[kani::stub(<[u16]>::fill, fill_model)]
+fn w_compress_tail() {
+    let lvl: u8 = kani::any();
+    kani::assume(lvl >= 1 && lvl <= 2);
+    let mut c = CompressorOxide::new(dcore::create_comp_flags_from_zip_params(lvl as i32, 0, 0));
+    let mut s = c.verif_scalars();
+    let dsz: usize = kani::any();
+    kani::assume(dsz <= 32768);
+    s.dict_size = dsz;
+    s.lookahead_size = kani::any();
+    kani::assume(s.lookahead_size <= 2);
+    s.saved_lit = 0;
+    let la = s.lookahead_size;
+    c.verif_set_scalars(&s);
+    let mut out = [0u8; 4];
+    let flush = any_flush();
+    let r = compress(&mut c, &[], &mut out, flush);
+    let a = c.verif_scalars();
+    let mark = c.verif_route_mark();
+    assert!(r.1 == 0 && r.2 == 0);
+    assert!(mark & 3 != 0); // a back end ran
+    let flushed = mark & dcore::verif::MARK_FLUSH_BLOCK != 0;
+    // the final flush happens only for a flush request with an empty look-ahead
+    assert!(flushed == (flush != TDEFLFlush::None && la == 0));
+    assert!(a.finished == (flushed && flush == TDEFLFlush::Finish));
+    assert!((r.0 == TDEFLStatus::Done) == a.finished);
+    if flushed && flush == TDEFLFlush::Full {
+        assert!(a.dict_size == 0);
+        let i: usize = kani::any();
+        kani::assume(i < 32768);
+        assert!(c.verif_hash(i) == 0 && c.verif_next(i) == 0);
+    } else {
+        assert!(a.dict_size == dsz);
+    }
+    kani::cover!(flushed && flush == TDEFLFlush::Full && dsz > 0);
+    kani::cover!(!flushed && flush == TDEFLFlush::Sync);
+    core::mem::forget(c);
+}
